@@ -7,7 +7,7 @@ Acceptor ops (state = the `expectedChans` registry):
 * `areset`
 * `reg <pid> <nonce> <selfBal> <chanType> <unann 0/1> <zc 0/1>`          → `ok <n entries>`
 * `rm <nonce>`                                                           → `ok <n entries>`
-* `acc <pid> <pushMsat> <commitType | -> <channelFlags> <wantsZC 0/1>`   → `accept=<0/1> zc=<0/1> depth=<n> err=<enum>`
+* `acc <pid> <pushMsat> <commitType | -> <channelFlags> <wantsZC 0/1>`   → `accept=<0/1> zc=<0/1> depth=<n> err=<0/1>` (whether an error text is set, not which)
 * `consts`  → the lnd / pool constants the model uses (compared with the compiled Go values)
 
 Funding ops (stateless).  Syntax of the pieces:
@@ -42,12 +42,8 @@ def parseInt (s : String) : Option Int := s.toInt?
 
 def b01 (b : Bool) : String := if b then "1" else "0"
 
-def errName : AccErr → String
-  | .none => "none" | .push => "push" | .explicitNeg => "explicit" | .leaseType => "lease"
-  | .taprootType => "taproot" | .internal => "internal" | .announce => "announce" | .zeroConf => "zeroconf"
-
 def fmtResp (r : AccResp) : String :=
-  s!"accept={b01 r.accept} zc={b01 r.zeroConf} depth={r.minAcceptDepth} err={errName r.err}"
+  s!"accept={b01 r.accept} zc={b01 r.zeroConf} depth={r.minAcceptDepth} err={b01 (r.err != .none)}"
 
 structure DrvSt where
   exp : Expected := []
